@@ -37,6 +37,7 @@ type cfg struct {
 	minN, minD, maxN, maxD int
 	hf                     string
 	zero                   bool
+	kt                     string // key type: "" (int), "string", "ints" ([]int of mixed lengths); the table then uses the library's own hash function
 }
 
 func (c cfg) head(h map[int]uint64) string {
@@ -55,6 +56,12 @@ func (c cfg) head(h map[int]uint64) string {
 	z := ""
 	if c.zero {
 		z = " zero=1"
+	}
+	if c.kt != "" {
+		z += " kt=" + c.kt
+	}
+	if c.cap >= 2048 { // big tables: the driver compares with the extracted abstract map only (the list-based model is too slow)
+		z += " big=1"
 	}
 	return fmt.Sprintf("%s cap=%d min=%d/%d max=%d/%d hf=%s%s H=%s", c.kind, c.cap, c.minN, c.minD, c.maxN, c.maxD, c.hf, z, b.String())
 }
@@ -80,6 +87,8 @@ func parseHead(s string) (cfg, map[int]uint64) {
 			c.hf = v
 		case "zero":
 			c.zero = v == "1"
+		case "kt":
+			c.kt = v
 		case "H":
 			for _, kh := range strings.Split(v, ",") {
 				a, b, ok := strings.Cut(kh, ":")
@@ -105,21 +114,107 @@ func defaults(kind string) cfg {
 	return cfg{kind: kind, cap: 31, minN: 1, minD: 8, maxN: 1, maxD: 2}
 }
 
-func mk(c cfg, hf hash.HashFunc[int]) st.SymbolTable[int, int] {
-	eq := generic.NewEqualFunc[int]()
+// tabI is what the traced operations need; gtab implements it for any key type through an injective
+// encoding of the keys into the integers used by the trace.
+type tabI interface {
+	Put(k, v int)
+	Get(k int) (int, bool)
+	Delete(k int) (int, bool)
+	DeleteAll()
+	Size() int
+	IsEmpty() bool
+	AllString() string
+	EqualTo(o tabI) bool
+	Dump() string
+}
+
+type gtab[K any] struct {
+	t    st.SymbolTable[K, int]
+	key  func(int) K
+	id   func(K) int
+	dump bool
+}
+
+func (g *gtab[K]) Put(k, v int)             { g.t.Put(g.key(k), v) }
+func (g *gtab[K]) Get(k int) (int, bool)    { return g.t.Get(g.key(k)) }
+func (g *gtab[K]) Delete(k int) (int, bool) { return g.t.Delete(g.key(k)) }
+func (g *gtab[K]) DeleteAll()               { g.t.DeleteAll() }
+func (g *gtab[K]) Size() int                { return g.t.Size() }
+func (g *gtab[K]) IsEmpty() bool            { return g.t.IsEmpty() }
+func (g *gtab[K]) EqualTo(o tabI) bool      { return g.t.Equal(o.(*gtab[K]).t) }
+func (g *gtab[K]) AllString() string {
+	var b strings.Builder
+	first := true
+	for k, v := range g.t.All() {
+		if !first {
+			b.WriteByte(',')
+		}
+		first = false
+		fmt.Fprintf(&b, "%d:%d", g.id(k), v)
+	}
+	return b.String()
+}
+func (g *gtab[K]) Dump() string {
+	if !g.dump {
+		return "?"
+	}
+	_, m, n, tb, lay := st.VerifHashDump[K, int](g.t)
+	return strings.TrimSpace(fmt.Sprintf("m=%d n=%d t=%d %s", m, n, tb, lay))
+}
+
+func newTab[K any](c cfg, hf hash.HashFunc[K], eq generic.EqualFunc[K], key func(int) K, id func(K) int, dump bool) tabI {
+	eqv := generic.NewEqualFunc[int]()
 	o := st.HashOpts{InitialCap: c.cap, MinLoadFactor: float32(c.minN) / float32(c.minD), MaxLoadFactor: float32(c.maxN) / float32(c.maxD)}
 	if c.zero {
 		o = st.HashOpts{}
 	}
+	var t st.SymbolTable[K, int]
 	switch c.kind {
 	case "chain":
-		return st.NewChainHashTable[int, int](hf, eq, eq, o)
+		t = st.NewChainHashTable[K, int](hf, eq, eqv, o)
 	case "linear":
-		return st.NewLinearHashTable[int, int](hf, eq, eq, o)
+		t = st.NewLinearHashTable[K, int](hf, eq, eqv, o)
 	case "quadratic":
-		return st.NewQuadraticHashTable[int, int](hf, eq, eq, o)
+		t = st.NewQuadraticHashTable[K, int](hf, eq, eqv, o)
+	default:
+		t = st.NewDoubleHashTable[K, int](hf, eq, eqv, o)
 	}
-	return st.NewDoubleHashTable[int, int](hf, eq, eq, o)
+	return &gtab[K]{t: t, key: key, id: id, dump: dump}
+}
+
+// the injective encodings: string keys "k<id>" padded to mixed lengths, []int keys of length 1 + id%4 starting with id
+func keyString(k int) string { return "k" + strconv.Itoa(k) + strings.Repeat("x", k%5) }
+func idString(s string) int {
+	v, _ := strconv.Atoi(strings.TrimRight(s[1:], "x"))
+	return v
+}
+func keyInts(k int) []int {
+	out := []int{k}
+	for j := 1; j < 1+k%4; j++ {
+		out = append(out, k*7+j)
+	}
+	return out
+}
+
+func mk(c cfg, hf hash.HashFunc[int]) tabI {
+	switch c.kt {
+	case "string": // the table gets its own instance of the library's hash function, as a user's table would
+		return newTab[string](c, hash.HashFuncForString[string](nil), generic.NewEqualFunc[string](), keyString, idString, false)
+	case "ints":
+		eq := func(a, b []int) bool {
+			if len(a) != len(b) {
+				return false
+			}
+			for i := range a {
+				if a[i] != b[i] {
+					return false
+				}
+			}
+			return true
+		}
+		return newTab[[]int](c, hash.HashFuncForIntSlice[[]int](nil), eq, keyInts, func(k []int) int { return k[0] }, false)
+	}
+	return newTab[int](c, hf, generic.NewEqualFunc[int](), func(k int) int { return k }, func(k int) int { return k }, true)
 }
 
 // ---------------------------------------------------------------- hash families
@@ -147,6 +242,12 @@ func classModulus(kind string) uint64 {
 }
 
 func hashOf(c cfg, k int) uint64 {
+	switch c.kt { // the header records the library's hash of the key, computed by a fresh function instance
+	case "string":
+		return hash.HashFuncForString[string](nil)(keyString(k))
+	case "ints":
+		return hash.HashFuncForIntSlice[[]int](nil)(keyInts(k))
+	}
 	switch c.hf {
 	case "fnv":
 		return fnvInt(k)
@@ -245,7 +346,7 @@ func opt(v int, ok bool) string {
 }
 
 type inst struct {
-	tabs [2]st.SymbolTable[int, int]
+	tabs [2]tabI
 	dead bool
 }
 
@@ -271,21 +372,11 @@ func (in *inst) exec(op string) string {
 		case 'Z':
 			return b2s(t.IsEmpty())
 		case 'A':
-			var b strings.Builder
-			first := true
-			for k, v := range t.All() {
-				if !first {
-					b.WriteByte(',')
-				}
-				first = false
-				fmt.Fprintf(&b, "%d:%d", k, v)
-			}
-			return b.String()
+			return t.AllString()
 		case 'E':
-			return b2s(t.Equal(o))
+			return b2s(t.EqualTo(o))
 		case 'X':
-			_, m, n, tb, lay := st.VerifHashDump[int, int](t)
-			return strings.TrimSpace(fmt.Sprintf("m=%d n=%d t=%d %s", m, n, tb, lay))
+			return t.Dump()
 		}
 		return "?"
 	}
@@ -955,6 +1046,143 @@ func clientsLRTable(r *rng.R, states, syms, cells int) {
 	runClient("lrtable", ops)
 }
 
+// large: big valid initial capacities with a few hundred keys; Deletes shrink the table and Puts grow it across
+// the 4096 / 8192 / 65536 slot boundaries, under FNV and a hash function that only uses high bits.
+func large(kind string, thorough bool) {
+	caps := []int{8192, 32768}
+	growFrom := 4096
+	if kind == "quadratic" || kind == "double" {
+		caps = []int{8191, 32771}
+		growFrom = 4099
+	}
+	if thorough {
+		if kind == "quadratic" || kind == "double" {
+			caps = append(caps, 16381, 65537)
+		} else {
+			caps = append(caps, 16384, 65536)
+		}
+	}
+	for _, hf := range []string{"fnv", "high"} {
+		for _, cap := range caps {
+			c := defaults(kind)
+			c.cap, c.hf = cap, hf
+			n := 300
+			var ops []string
+			for i := 0; i < n; i++ {
+				ops = append(ops, p(0, i, i))
+			}
+			ops = append(ops, "S0", g(0, 0), g(0, n-1), g(0, n))
+			for j := 0; j < 12; j++ { // every Delete (of an absent key for chaining) halves the sparse table
+				ops = append(ops, d(0, n+5+j), d(0, j), "S0")
+				for i := j; i < n; i += 7 {
+					ops = append(ops, g(0, i))
+				}
+			}
+			for i := 0; i < n; i++ {
+				ops = append(ops, g(0, i))
+			}
+			ops = append(ops, "S0", "A0", "X0")
+			runCase(c, nil, ops)
+		}
+		// growth across the 4096 -> 8192 boundary with a maximum load factor at its upper limit
+		c := defaults(kind)
+		c.cap, c.hf = growFrom, hf
+		n := growFrom/2 + 40
+		if kind == "chain" {
+			c.minN, c.minD, c.maxN, c.maxD = 1, 4, 1, 1
+			n = growFrom + 40
+		}
+		var ops []string
+		for i := 0; i < n; i++ {
+			ops = append(ops, p(0, i, i))
+			if i%97 == 0 {
+				ops = append(ops, g(0, i/2), "S0")
+			}
+		}
+		for i := 0; i < n; i += 3 {
+			ops = append(ops, g(0, i))
+		}
+		ops = append(ops, "S0", "X0")
+		runCase(c, nil, ops)
+	}
+}
+
+// hashProbes: every exported hash.HashFuncFor... must be a function: hashing other keys (of other lengths) in
+// between must not change the hash of a key, and two instances must agree.
+type numT interface {
+	~int | ~int8 | ~int16 | ~int32 | ~int64 | ~uint | ~uint8 | ~uint16 | ~uint32 | ~uint64 | ~uintptr | ~float32 | ~float64
+}
+
+func numKeys[T numT]() []T { return []T{0, 1, 2, 3, 7, 100, 127, 5, 1} }
+
+func mixedSlices[T any](ks []T) [][]T {
+	return [][]T{{}, {ks[0]}, {ks[0], ks[1]}, {ks[0], ks[1], ks[2]}, {ks[1]}, {ks[0], ks[1], ks[2], ks[3], ks[4]},
+		{ks[0], ks[1]}, {ks[2], ks[1], ks[0]}, {ks[0]}, {}, {ks[5], ks[6]}, {ks[0], ks[1], ks[2], ks[3]}}
+}
+
+func probeHash[T any](name string, f1, f2 hash.HashFunc[T], keys []T) {
+	res := safely(func() string {
+		first := make([]uint64, len(keys))
+		for i, k := range keys {
+			first[i] = f1(k)
+		}
+		for i := len(keys) - 1; i >= 0; i-- {
+			if f1(keys[i]) != first[i] {
+				return fmt.Sprintf("nondeterministic:key#%d-rehashed-after-other-keys", i)
+			}
+		}
+		for i := 0; i < len(keys); i += 2 {
+			if f2(keys[i]) != first[i] {
+				return fmt.Sprintf("nondeterministic:key#%d-second-instance", i)
+			}
+		}
+		return "ok"
+	})
+	w.Op("H "+name, res)
+}
+
+func hashProbes() {
+	w.Begin("hashdet")
+	probeHash("Bool", hash.HashFuncForBool[bool](nil), hash.HashFuncForBool[bool](nil), []bool{true, false, true})
+	probeHash("BoolSlice", hash.HashFuncForBoolSlice[[]bool](nil), hash.HashFuncForBoolSlice[[]bool](nil), mixedSlices([]bool{true, false, true, true, false, false, true}))
+	probeHash("Int8", hash.HashFuncForInt8[int8](nil), hash.HashFuncForInt8[int8](nil), numKeys[int8]())
+	probeHash("Int8Slice", hash.HashFuncForInt8Slice[[]int8](nil), hash.HashFuncForInt8Slice[[]int8](nil), mixedSlices(numKeys[int8]()))
+	probeHash("Int16", hash.HashFuncForInt16[int16](nil), hash.HashFuncForInt16[int16](nil), numKeys[int16]())
+	probeHash("Int16Slice", hash.HashFuncForInt16Slice[[]int16](nil), hash.HashFuncForInt16Slice[[]int16](nil), mixedSlices(numKeys[int16]()))
+	probeHash("Int32", hash.HashFuncForInt32[int32](nil), hash.HashFuncForInt32[int32](nil), numKeys[int32]())
+	probeHash("Int32Slice", hash.HashFuncForInt32Slice[[]int32](nil), hash.HashFuncForInt32Slice[[]int32](nil), mixedSlices(numKeys[int32]()))
+	probeHash("Int64", hash.HashFuncForInt64[int64](nil), hash.HashFuncForInt64[int64](nil), numKeys[int64]())
+	probeHash("Int64Slice", hash.HashFuncForInt64Slice[[]int64](nil), hash.HashFuncForInt64Slice[[]int64](nil), mixedSlices(numKeys[int64]()))
+	probeHash("Int", hash.HashFuncForInt[int](nil), hash.HashFuncForInt[int](nil), numKeys[int]())
+	probeHash("IntSlice", hash.HashFuncForIntSlice[[]int](nil), hash.HashFuncForIntSlice[[]int](nil), mixedSlices(numKeys[int]()))
+	probeHash("Uint8", hash.HashFuncForUint8[uint8](nil), hash.HashFuncForUint8[uint8](nil), numKeys[uint8]())
+	probeHash("Uint8Slice", hash.HashFuncForUint8Slice[[]uint8](nil), hash.HashFuncForUint8Slice[[]uint8](nil), mixedSlices(numKeys[uint8]()))
+	probeHash("Uint16", hash.HashFuncForUint16[uint16](nil), hash.HashFuncForUint16[uint16](nil), numKeys[uint16]())
+	probeHash("Uint16Slice", hash.HashFuncForUint16Slice[[]uint16](nil), hash.HashFuncForUint16Slice[[]uint16](nil), mixedSlices(numKeys[uint16]()))
+	probeHash("Uint32", hash.HashFuncForUint32[uint32](nil), hash.HashFuncForUint32[uint32](nil), numKeys[uint32]())
+	probeHash("Uint32Slice", hash.HashFuncForUint32Slice[[]uint32](nil), hash.HashFuncForUint32Slice[[]uint32](nil), mixedSlices(numKeys[uint32]()))
+	probeHash("Uint64", hash.HashFuncForUint64[uint64](nil), hash.HashFuncForUint64[uint64](nil), numKeys[uint64]())
+	probeHash("Uint64Slice", hash.HashFuncForUint64Slice[[]uint64](nil), hash.HashFuncForUint64Slice[[]uint64](nil), mixedSlices(numKeys[uint64]()))
+	probeHash("Uintptr", hash.HashFuncForUintptr[uintptr](nil), hash.HashFuncForUintptr[uintptr](nil), numKeys[uintptr]())
+	probeHash("UintptrSlice", hash.HashFuncForUintptrSlice[[]uintptr](nil), hash.HashFuncForUintptrSlice[[]uintptr](nil), mixedSlices(numKeys[uintptr]()))
+	probeHash("Uint", hash.HashFuncForUint[uint](nil), hash.HashFuncForUint[uint](nil), numKeys[uint]())
+	probeHash("UintSlice", hash.HashFuncForUintSlice[[]uint](nil), hash.HashFuncForUintSlice[[]uint](nil), mixedSlices(numKeys[uint]()))
+	probeHash("Float32", hash.HashFuncForFloat32[float32](nil), hash.HashFuncForFloat32[float32](nil), numKeys[float32]())
+	probeHash("Float32Slice", hash.HashFuncForFloat32Slice[[]float32](nil), hash.HashFuncForFloat32Slice[[]float32](nil), mixedSlices(numKeys[float32]()))
+	probeHash("Float64", hash.HashFuncForFloat64[float64](nil), hash.HashFuncForFloat64[float64](nil), numKeys[float64]())
+	probeHash("Float64Slice", hash.HashFuncForFloat64Slice[[]float64](nil), hash.HashFuncForFloat64Slice[[]float64](nil), mixedSlices(numKeys[float64]()))
+	c64 := []complex64{0, 1, complex(1, 2), complex(0, 1), 3, complex(2, 2), 7}
+	c128 := []complex128{0, 1, complex(1, 2), complex(0, 1), 3, complex(2, 2), 7}
+	probeHash("Complex64", hash.HashFuncForComplex64[complex64](nil), hash.HashFuncForComplex64[complex64](nil), c64)
+	probeHash("Complex64Slice", hash.HashFuncForComplex64Slice[[]complex64](nil), hash.HashFuncForComplex64Slice[[]complex64](nil), mixedSlices(c64))
+	probeHash("Complex128", hash.HashFuncForComplex128[complex128](nil), hash.HashFuncForComplex128[complex128](nil), c128)
+	probeHash("Complex128Slice", hash.HashFuncForComplex128Slice[[]complex128](nil), hash.HashFuncForComplex128Slice[[]complex128](nil), mixedSlices(c128))
+	strs := []string{"", "a", "ab", "abc", "b", "abcdefgh", "ab", "cba", "a", "", "xy", "abcd"}
+	probeHash("String", hash.HashFuncForString[string](nil), hash.HashFuncForString[string](nil), strs)
+	probeHash("StringSlice", hash.HashFuncForStringSlice[[]string](nil), hash.HashFuncForStringSlice[[]string](nil), mixedSlices([]string{"a", "bc", "", "def", "a", "zz", "q"}))
+	w.End()
+}
+
 // invalidCaps: capacities the constructor must reject (not a prime / power of two, or below the minimum),
 // among them squares of primes; the case is the construction alone (result PANIC) or a trivial history.
 func invalidCaps(kind string) {
@@ -1037,6 +1265,10 @@ func main() {
 		}
 		maxHung = 1
 		for _, c := range cs {
+			if strings.HasPrefix(c.Head, "hashdet") {
+				hashProbes()
+				continue
+			}
 			if strings.HasPrefix(c.Head, "client") {
 				runClient(strings.Fields(c.Head)[1], c.Ops)
 				continue
@@ -1081,6 +1313,11 @@ func main() {
 			} else {
 				exhaustive(c, growLimit(c)-3, 3)
 			}
+			for _, kt := range []string{"string", "ints"} {
+				c = dflt
+				c.hf, c.kt = "lib", kt
+				exhaustive(c, 0, 3)
+			}
 			// a configuration with maxLF < 2*minLF, prefilled beyond its first growth so that deletes shrink it
 			c = vs[len(vs)-2]
 			c.hf = "id"
@@ -1099,6 +1336,10 @@ func main() {
 			c.hf = hashFamilies[r.Intn(len(hashFamilies))]
 			if c.zero && r.Chance(1, 2) {
 				c.hf = "fnv"
+			}
+			if i%5 == 4 { // keys of another type, hashed by the library's own hash function
+				c.kt = []string{"string", "ints"}[(i/5)%2]
+				c.hf = "lib"
 			}
 			uni := []int{3, 8, 20, 40, 40, 120, 300}[r.Intn(7)]
 			steps := r.Range(20, 400)
@@ -1177,8 +1418,10 @@ func main() {
 		}
 	case "adversarial":
 		r := rng.FromEnv(4)
+		hashProbes()
 		for _, kind := range ks {
 			// VERIF_C02_NO_SQUARES=1 switches these two generators off (used to self-test the directed search of checks/C02.py)
+			large(kind, thorough)
 			if os.Getenv("VERIF_C02_NO_SQUARES") == "" {
 				if kind == "quadratic" || kind == "double" {
 					squares(kind, thorough)
